@@ -232,6 +232,21 @@ namespace
         {
             // the self-sizing encoder takes an igris::buffer: the payload is handed over as (pointer, length), as a
             // std::string or as a std::string_view (zero bytes are ordinary payload bytes in all three)
+            // ... or, for a few lengths, as a plain (non-const) char array of exactly that many bytes
+            auto via_array = [&](auto tag) -> Bytes {
+                char arr[decltype(tag)::value];
+                memcpy(arr, in.get(), sizeof arr);
+                return gstuffing(igris::buffer(arr), ctx);
+            };
+            if (n && (uint8_t)p[0] % 2 == 0)
+            {
+                if (n == 1) return via_array(std::integral_constant<size_t, 1>());
+                if (n == 2) return via_array(std::integral_constant<size_t, 2>());
+                if (n == 3) return via_array(std::integral_constant<size_t, 3>());
+                if (n == 5) return via_array(std::integral_constant<size_t, 5>());
+                if (n == 8) return via_array(std::integral_constant<size_t, 8>());
+                if (n == 16) return via_array(std::integral_constant<size_t, 16>());
+            }
             int how = (int)((n + (n ? (uint8_t)p[0] : 0)) % 3);
             if (how == 1) return gstuffing(igris::buffer(std::string(in.get(), n)), ctx); // (the temporary lives until the call returns)
             if (how == 2) return gstuffing(igris::buffer(std::string_view(in.get(), n)), ctx);
